@@ -249,7 +249,7 @@ def row_ids(case, res, tmpl, rows):
         col = np.asarray(tmpl.columns[nb]).flatten()
         return [int(round(float(v) - 0.25)) for v in col]
     if kind == 'bylabels':
-        keys = [tuple(r['labels']) for r in res.classify]
+        keys = [tuple(str(v) for v in r['labels']) for r in res.classify]     # label values need not be text
         nlab = len(res.test.by_labels)
         ids = []
         for i in range(len(rows)):
